@@ -154,27 +154,27 @@ def value2bits (n : Node) : Nat :=
 def listMin (l : List Nat) (d : Nat) : Nat := l.foldl min (l.headD d)
 def listMax (l : List Nat) (d : Nat) : Nat := l.foldl max (l.headD d)
 
+/-- the local reference value, increment width and increments `bufr_put_numeric_compressed`
+chooses for a column of raw values: `imin = imax = value2bits(bcv)`; missing values are skipped,
+the first present one seeds both; a constant (or all-missing) column has no increments -/
+def encNumCol (nbits : Int) (vals : List Nat) : Nat × Nat × List Nat :=
+  let missing := missingIvalue nbits
+  let present := vals.filter (· ≠ missing)
+  let nbMsng := vals.length - present.length
+  let imin := if present.isEmpty then missing else listMin present missing
+  let imax := if present.isEmpty then missing else listMax present missing
+  if (imin = imax ∧ nbMsng = 0) ∨ nbMsng = vals.length then (imin, 0, [])
+  else
+    let nbinc := valueNbits (imax - imin)
+    (imin, nbinc, vals.map fun v => if v = missing then missingIvalue nbinc else v - imin)
+
 /-- `bufr_put_numeric_compressed` for the column `col` (one node per subset) -/
 def putNumericCompressed (w : W) (col : List Node) : W :=
   match col with
   | [] => w
   | n0 :: _ =>
-    let nb := n0.enc.nbits.toNat
-    let missing := missingIvalue n0.enc.nbits
-    let vals := col.map value2bits
-    let present := vals.filter (· ≠ missing)
-    let nbMsng := vals.length - present.length
-    -- `imin = imax = value2bits(bcv)`; missing values are skipped, the first present one seeds both
-    let imin := if present.isEmpty then missing else listMin present missing
-    let imax := if present.isEmpty then missing else listMax present missing
-    if (imin = imax ∧ nbMsng = 0) ∨ nbMsng = vals.length then
-      (w.putbits imin nb).putbits 0 6
-    else
-      let w1 := w.putbits imin nb
-      let nbinc := valueNbits (imax - imin)
-      let msng := missingIvalue nbinc
-      let w2 := w1.putbits nbinc 6
-      vals.foldl (fun w v => w.putbits (if v = missing then msng else v - imin) nbinc) w2
+    let plan := encNumCol n0.enc.nbits (col.map value2bits)
+    plan.2.2.foldl (fun w v => w.putbits v plan.2.1) ((w.putbits plan.1 n0.enc.nbits.toNat).putbits plan.2.1 6)
 
 /-- `bufr_put_af_compressed` -/
 def putAfCompressed (w : W) (col : List Node) : W :=
